@@ -352,6 +352,7 @@ func checkC10(p *Prog, r *Report) {
 
 	/* 2: the sink. */
 	checkC10Sink(p, r, rSink, known)
+	checkC10Scratch(p, r, r.Rule("notice-text-owned", "the text of a notice is built in memory of the call which sends it, never in a scratch buffer shared between calls"))
 
 	/* vet printf in-process. */
 	runVetPrintf(p, r, rVet, known)
@@ -494,4 +495,128 @@ func runVetPrintf(p *Prog, r *Report, ru *Rule, known map[*ssa.Function]printfIn
 		}
 	}
 	ru.AtLeast(8, "packages vetted")
+}
+
+// checkC10Scratch: every value stored into CLine.Line is rooted in
+// parameters, constants, fresh formatting results and received values, never
+// in a mutable buffer which is a struct field or package variable.
+func checkC10Scratch(p *Prog, r *Report, ru *Rule) {
+	through := func(n string) bool {
+		switch n {
+		case "fmt.Sprintf", "fmt.Sprint", "fmt.Sprintln", "(*bytes.Buffer).String", "(*bytes.Buffer).Bytes", "(*strings.Builder).String",
+			"strings.TrimSpace", "strings.TrimRight", "strings.TrimSuffix", "strings.Join", "strings.Clone":
+			return true
+		}
+		return false
+	}
+	mutable := func(t types.Type) bool {
+		for {
+			pt, ok := t.Underlying().(*types.Pointer)
+			if !ok {
+				break
+			}
+			t = pt.Elem()
+		}
+		switch t.String() {
+		case "bytes.Buffer", "strings.Builder", "[]byte", "bufio.Writer":
+			return true
+		}
+		if a, ok := t.Underlying().(*types.Array); ok {
+			return "byte" == a.Elem().String() || "uint8" == a.Elem().String()
+		}
+		return false
+	}
+	n := 0
+	for _, fn := range p.Funcs() {
+		eachInstr(fn, func(i ssa.Instruction) {
+			st, ok := i.(*ssa.Store)
+			if !ok {
+				return
+			}
+			fv, _ := fieldAddrOf(st.Addr)
+			if nil == fv || "Line" != fv.Name() || nil == fv.Pkg() || !strings.HasSuffix(fv.Pkg().Path(), "lib/opshell") {
+				return
+			}
+			n++
+			c := fmt.Sprintf("%s:CLine.Line#%d", fnName(fn), ordinalIn(fn, i))
+			bad := false
+			for _, x := range valueRoots(st.Val, through) {
+				switch x.Kind {
+				case "field":
+					if mutable(x.Field.Type()) {
+						bad = true
+						ru.Bad(c, posOf(st), "the notice is assembled in %s, scratch space shared by every call: two notices built at the same time are spliced into each other, so an address or ID appears cut, doubled or in the wrong notice", x)
+					}
+				case "other":
+					/* The address of a buffer (receiver of String/Bytes). */
+					if fa, ok := x.V.(*ssa.FieldAddr); ok {
+						if fv, _ := fieldAddrOf(fa); nil != fv && mutable(fv.Type()) {
+							if heldSiblingMutex(fn, fa, st) {
+								continue /* built and sent under a lock of the same object */
+							}
+							bad = true
+							ru.Bad(c, posOf(st), "the notice is assembled in field %s, scratch space shared by every call: two notices built at the same time are spliced into each other, so an address or ID appears cut, doubled or in the wrong notice", fv.Name())
+						}
+					}
+					if g, ok := x.V.(*ssa.Global); ok && mutable(g.Type()) {
+						bad = true
+						ru.Bad(c, posOf(st), "the notice is assembled in package variable %s shared by every call", g.Name())
+					}
+				case "global":
+					if g, ok := x.V.(*ssa.Global); ok && mutable(g.Type()) {
+						bad = true
+						ru.Bad(c, posOf(st), "the notice is assembled in package variable %s shared by every call", g.Name())
+					}
+				}
+			}
+			if !bad {
+				ru.OK(c, posOf(st), "text rooted in the call's own values")
+			}
+		})
+	}
+	if n < 3 {
+		ru.Unproven("CLine.Line stores", token.NoPos, "%d stores to CLine.Line found, at least 3 expected", n)
+	}
+}
+
+// ordinalIn numbers same-kind constructs within a function in source order.
+func ordinalIn(fn *ssa.Function, target ssa.Instruction) int {
+	k := 0
+	found := 0
+	eachInstr(fn, func(i ssa.Instruction) {
+		st, ok := i.(*ssa.Store)
+		if !ok {
+			return
+		}
+		if fv, _ := fieldAddrOf(st.Addr); nil != fv && "Line" == fv.Name() {
+			k++
+			if i == target {
+				found = k
+			}
+		}
+	})
+	return found
+}
+
+// heldSiblingMutex: at instruction at, fn definitely holds a sync.Mutex /
+// RWMutex which is a field of the struct fa points into.
+func heldSiblingMutex(fn *ssa.Function, fa *ssa.FieldAddr, at ssa.Instruction) bool {
+	pt, ok := fa.X.Type().Underlying().(*types.Pointer)
+	if !ok {
+		return false
+	}
+	stt, ok := pt.Elem().Underlying().(*types.Struct)
+	if !ok {
+		return false
+	}
+	for k := 0; k < stt.NumFields(); k++ {
+		f := stt.Field(k)
+		if t := f.Type().String(); "sync.Mutex" != t && "sync.RWMutex" != t {
+			continue
+		}
+		if mustHold(fn, f)[at] {
+			return true
+		}
+	}
+	return false
 }
